@@ -156,10 +156,10 @@ open CS.Runnable CS.Wire CS.Driver.Runnable
 open CS.Runnable.Th (SPc CPc Ret Thr Call Tick lineTick nDo)
 
 structure TObs where
-  v : Bool
+  v : Th.Prog
   s : Th.St
 
-def tInit : TObs := { v := false, s := Th.init }
+def tInit : TObs := { v := .head, s := Th.init }
 
 /-- backoff parameters of the harness service: min 1/4, max 4, multiplier 2, sleep 1/8 (all exact in binary floating point) -/
 def hp : Params := ⟨1/4, 4, 2⟩
@@ -202,7 +202,8 @@ def encT (o : TObs) : String :=
 def stepThreads (o : TObs) (toks : List String) : TObs × String :=
   let fin (s : Th.St) : TObs × String := let o' := { o with s := s }; (o', encT o')
   match toks with
-  | ["reset", v] => let o' : TObs := { v := v == "1", s := Th.init }; (o', encT o')
+  | ["reset", v] =>
+    let o' : TObs := { v := if v == "1" then .resetInRun else if v == "2" then .wakeTwice else .head, s := Th.init }; (o', encT o')
   | ["C", tmo] =>
     match decBool tmo with
     | some tmo => fin (lineTick o.v o.s (.c tmo))
